@@ -521,6 +521,9 @@ pub use crate::raft::{
     vote_resp_msg_type, Raft, SoftState, StateRole, CAMPAIGN_ELECTION, CAMPAIGN_PRE_ELECTION,
     CAMPAIGN_TRANSFER, INVALID_ID, INVALID_INDEX,
 };
+#[cfg(tikv_raft_rs_verif)]
+#[doc(hidden)]
+pub use crate::raft::verif as verif_raft;
 pub use confchange::{Changer, MapChange};
 pub use config::Config;
 pub use errors::{Error, Result, StorageError};
